@@ -611,7 +611,7 @@ Proof.
   assert (Hrun' : run_from (bc_init anchor) evs = (tr, st)).
   { destruct evs as [|ev r]; [exact Hrun|]. cbn [run_from] in *. now rewrite <- (step_init anchor). }
   apply (run_from_good anchor (all_headers evs) rk Hrk Hcons Hpos evs (bc_init anchor) [] []).
-  - apply BI_init.
+  - exact (BI_init anchor (all_headers evs) rk Hpos).
   - intros x Hx. exact Hx.
   - exact Hrun'.
 Qed.
